@@ -231,8 +231,9 @@ class TUf(Theory):
     a==b, at most one of a<b, a==b, b<a."""
     name = "T_uf"
 
-    def __init__(self, backend="f64"):
+    def __init__(self, backend="f64", total=False):
         super().__init__(backend)
+        self.total = total          # assume every compared pair is ordered (non-NaN amounts)
         self.A = z3.DeclareSort("Amt")
         A = self.A
         self.f = {op: z3.Function("f" + op.lower(), A, A, A) for op in ("Mul", "Div", "Add", "Sub")}
@@ -291,6 +292,8 @@ class TUf(Theory):
             self.pairs.add(k)
             lt, gt, eq = self.flt(x, y), self.flt(y, x), self._eq(x, y)
             self.cons.append(z3.And(z3.Not(z3.And(lt, gt)), z3.Not(z3.And(lt, eq)), z3.Not(z3.And(gt, eq))))
+            if self.total:
+                self.cons.append(z3.Or(lt, gt, eq))
 
     def _eq(self, x, y):
         if x.get_id() > y.get_id():
